@@ -377,6 +377,15 @@ class C14(CheckBase):
         if k == 0:
             return {"kind": "random", "seed": ch.choose(1 << 30),
                     "p": ch.pick([0.01, 0.05, 0.2])}
+        if k < 7:
+            # change points at a task's n-th shared-state access line /
+            # file-system call / in-template probe
+            d = ch.pick([1, 2, 2, 3, 3, 4])
+            return {"kind": "pctacc",
+                    "prios": ch.shuffle(list(range(1, ntasks + 1))),
+                    "fracs": [[ch.choose(ntasks),
+                               ch.choose(100000) / 100000.0, ch.coin(0.25)]
+                              for _ in range(d)]}
         d = 1 + ch.choose(3)
         return {"kind": "pct", "prios": ch.shuffle(list(range(1, ntasks + 1))),
                 # fractions of the dry-run event count; half of them are
@@ -389,7 +398,7 @@ class C14(CheckBase):
         def y():
             s = sched_box[0]
             if s is not None and s.active:
-                s.yield_point("probe:y", interesting=True)
+                s.yield_point("probe:y", interesting=True, access=True)
             return ""
         return {"name": "n%d" % k, "items": [k, k + 1, k + 2],
                 "y": y, "translate": tr_stub,
